@@ -1,2 +1,23 @@
 import FpgoVerif.Props.C10
 /-! `#print axioms` for every property theorem of C10; parsed by `check`. -/
+#print axioms FpgoVerif.C10.C10_run_reach
+#print axioms FpgoVerif.C10.C10_snapshot_stable
+#print axioms FpgoVerif.C10.C10_once
+#print axioms FpgoVerif.C10.C10_once_log
+#print axioms FpgoVerif.C10.C10_log_running
+#print axioms FpgoVerif.C10.C10_once_running
+#print axioms FpgoVerif.C10.C10_unsubscribed_stays_out
+#print axioms FpgoVerif.C10.C10_map_partial
+#print axioms FpgoVerif.C10.C10_handler
+#print axioms FpgoVerif.C10.C10_prefix_in_place_compaction_refuted
+#print axioms FpgoVerif.C10.C10_prefix_not_once
+#print axioms FpgoVerif.C10.C10_witness_fixed
+#print axioms FpgoVerif.C10.C10_skel_doSubscribeSafe
+#print axioms FpgoVerif.C10.C10_skel_Publish
+#print axioms FpgoVerif.C10.C10_skel_Subscribe
+#print axioms FpgoVerif.C10.C10_skel_Unsubscribe
+#print axioms FpgoVerif.C10.C10_skel_Map
+#print axioms FpgoVerif.C10.C10_skel_SubscribeOn
+#print axioms FpgoVerif.C10.C10_fact_unsubscribe_copies
+#print axioms FpgoVerif.C10.C10_fact_subscribe_appends
+#print axioms FpgoVerif.C10.C10_fact_publish_snapshot
